@@ -200,7 +200,7 @@ Qed.
 
 Theorem snapshot_raise_carries_unresolved : forall b u,
   snapshot_git_object b false = SnapUnresolved u -> u = unresolved b.
-Proof. intros b u. unfold snapshot_git_object. destruct (unresolved b); intro H; inversion H; reflexivity. Qed.
+Proof. intros b u. unfold snapshot_git_object. destruct (unresolved b) eqn:E; intro H; inversion H; reflexivity. Qed.
 
 Theorem snapshot_ignore_total : forall b, snapshot_git_object b true = SnapOk (snap_manifest b).
 Proof. intro b. unfold snapshot_git_object, snap_manifest. destruct (unresolved b); reflexivity. Qed.
